@@ -28,6 +28,8 @@ IsNaNV(v) == v.t = "num" /\ FIsNaN(D(v))
 \* integer-valued number that fits the small range we index with
 IsIntV(v) == v.t = "num" /\ FIsInt(D(v))
 IntOf(v) == FToInt(D(v))
+RECURSIVE RepStr(_, _)
+RepStr(x, n) == IF n <= 0 THEN "" ELSE x \o RepStr(x, n - 1)
 \* raw equality (Lua ==  without metamethods)
 RawEq(a, b) == IF a.t = "num" /\ b.t = "num" THEN FEq(D(a), D(b))
                ELSE a.t = b.t /\ a.hi = b.hi /\ a.lo = b.lo /\ a.s = b.s
@@ -450,7 +452,16 @@ CallBi(P, m, name, args) ==
          IF a1.t = "str" THEN Ret1(m, NumI(Len(a1.s)))
          ELSE IF a1.t = "num" THEN LET r == NumToStr(D(a1)) IN IF r[1] THEN Ret1(m, NumI(Len(r[2]))) ELSE Unspec(m, "number formatting")
          ELSE Err(m, "bad argument to string.len")
-    [] name = "string.rep" -> Unspec(m, "string.rep is not modelled")
+    [] name = "string.rep" ->
+         \* string.rep(s, n): s a string (numbers are not modelled here), n an integer-valued number; a third argument
+         \* (separator) exists in neither Lua 5.1 nor Luau's 5.1 signature differences worth modelling
+         IF na < 2 THEN Err(m, "bad argument to string.rep")
+         ELSE IF a1.t # "str" \/ a2.t # "num" \/ na > 2 THEN Unspec(m, "string.rep with a coerced argument or a separator")
+         ELSE IF ~IsIntV(a2) THEN Unspec(m, "string.rep with a non-integer count")
+         ELSE LET n == IF FLt(D(a2), FOfInt(100000)) /\ FLt(FOfInt(-100000), D(a2)) THEN IntOf(a2) ELSE 100000 IN
+              IF n <= 0 THEN Ret1(m, Str(""))
+              ELSE IF n * Len(a1.s) > 4000 THEN Unspec(m, "string.rep result too long for the model")
+              ELSE Ret1(m, Str(RepStr(a1.s, n)))
     [] name = "table.insert" ->
          IF na < 1 \/ a1.t # "tab" THEN Err(m, "bad argument to table.insert")
          ELSE IF na # 2 /\ na # 3 THEN Err(m, "wrong number of arguments to table.insert")
@@ -523,7 +534,9 @@ GetIndex(P, m, o, k, depth) ==
          IF h.t = "nil" THEN Ret1(m, Nil)
          ELSE IF IsFunc(h) THEN CallMetaWith(P, m, "one", h, <<o, k>>)
          ELSE GetIndex(P, m, h, k, depth + 1)
-  ELSE IF o.t = "str" THEN Unspec(m, "indexing a string (string library is not modelled)")
+  \* the metatable of strings has __index = the `string` library table (heap[3], by identity: reassigning the global
+  \* `string` does not change it); members of the library that are not modelled end in `unspec`
+  ELSE IF o.t = "str" THEN GetIndex(P, m, Tab(3), k, depth + 1)
   ELSE Err(m, "attempt to index a " \o TypeName(o) \o " value")
 \* continues with mode "N" when done
 SetIndex(P, m, o, k, v, depth) ==
